@@ -225,6 +225,9 @@ type ScriptReader struct {
 	Ended   chan struct{} // closed when the reader has reported end of input (or was closed)
 	endOnce sync.Once
 	Frag    int // max bytes per Read (0 = everything available in the item)
+	// Coalesce lets one Read deliver the bytes of several consecutive plain items (a client that writes without
+	// waiting, over a transport that buffers): e.g. the start message together with the first frames.
+	Coalesce bool
 }
 
 func NewScriptReader(items []Item, gates *Gates) *ScriptReader {
@@ -278,6 +281,18 @@ func (r *ScriptReader) Read(p []byte) (int, error) {
 		}
 		copy(p, it.Bytes[r.off:r.off+n])
 		r.off += n
+		if r.Coalesce && r.Frag == 0 {
+			for n < len(p) && r.off >= len(r.items[r.pos].Bytes) && r.pos+1 < len(r.items) {
+				next := r.items[r.pos+1]
+				if next.Gate != "" || next.Pause > 0 || next.Err || len(next.Bytes) == 0 {
+					break
+				}
+				r.pos++
+				m := copy(p[n:], next.Bytes)
+				r.off = m
+				n += m
+			}
+		}
 		r.mu.Unlock()
 		return n, nil
 	}
